@@ -9,14 +9,16 @@ META = {
                  "control flow) + recording-context oracle on generated templates + exact correspondence of the model "
                  "analysis with the real report and of the model semantics with the recorded look-ups",
     "category": "proof",
-    "text": "Kernel-checked: for every template of the fragment (emit, for/else/filter, if, with, set, set/filter blocks, "
-            "autoescape, macros with defaults and closures, call blocks, do; every expression form) and every choice of "
-            "branches, iteration counts and macro invocations, each context key the reference semantics asks for is in "
-            "findUndeclared, except the own name of a macro that mentions itself (known finding, proved to be the only "
-            "exception and proved to be a real counterexample).  Tie: the real AST of each generated template is run "
-            "through the Lean model and must give exactly the set Template::undeclared_variables(false) returns; the "
-            "keys a recording context object sees during real renders must be contained in the real report (oracle, "
-            "also for nested=true by prefix) and in the union of the model semantics' look-ups over all choice trees.",
+    "text": "Kernel-checked: for every single-file template (emit, for with filter/else/recursive/break/continue, if, "
+            "with, set, set/filter blocks, autoescape, blocks rendered in place and through self.name(), macros with "
+            "defaults and closures, call blocks, do; every expression form) and every choice of branches, iteration "
+            "counts, macro invocations, loop re-entries and block calls (nested to any depth), each context key the "
+            "reference semantics asks for is in findUndeclared and is the root of a name in findUndeclaredNested, except "
+            "the own name of a macro that mentions itself (known finding, proved to be the only exception and proved to "
+            "be a real counterexample).  Tie: the real AST of each generated template is run through the Lean model and "
+            "must give exactly the sets Template::undeclared_variables(false) and (true) return; the keys a recording "
+            "context object sees during real renders must be contained in the real report (oracle, nested=true by "
+            "prefix) and in the union of the model semantics' look-ups over all choice trees.",
     "design_ref": "DESIGN.md §3 C18",
     "level_note": "Trusted: Lean kernel; hand transcription of meta.rs (track_walk & co.) and of the scoping behaviour of "
                   "codegen.rs/context.rs into MJ/Model/Meta.lean — the analysis part is validated exactly on every "
@@ -108,10 +110,14 @@ def run(r):
             else:
                 tie_checked += 1
                 mund = set(m["und"].split())
+                mnested = set(m["nested"].split())
                 selfref = set(m["selfref"].split())
                 if mund != und:
                     r.model_disagreement(h, "undeclared_variables(false)=" + " ".join(sorted(und)),
                                          "findUndeclared=" + " ".join(sorted(mund)))
+                if mnested != nested:
+                    r.model_disagreement(h, "undeclared_variables(true)=" + " ".join(sorted(nested)),
+                                         "findUndeclaredNested=" + " ".join(sorted(mnested)))
         # ---- oracle: recorded keys ⊆ report ∪ globals  (and nested: prefix roots)
         for ci, keys in enumerate(d["reads"]):
             for k in keys:
@@ -153,7 +159,7 @@ def run(r):
     r.extra["semantics_tie_skipped"] = sem_skipped
     if tie_checked == 0:
         r.broken.append("no template reached the analysis correspondence")
-    if sem_checked * 2 < tie_checked:
+    if sem_checked * 100 < tie_checked * 95:
         r.broken.append(f"semantics tie evaluated on only {sem_checked} of {tie_checked} templates")
 
 
